@@ -21,7 +21,8 @@ from common import prove, leanchecker
 from vlib import log
 
 PROP = "C18"
-MODULES = ["W2c2Verif.Props.C18"]
+MODULES = ["W2c2Verif.Props.C18", "W2c2Verif.Props.C05Grow"]
+GROW_CONTENT_MODULES = ["W2c2Verif.Props.C05Grow"]      # what C05 must build besides its own modules (GENS: MemFuncs)
 GENS = [("MemFuncs", "gen_memfuncs")]
 CONCDRIVER = os.path.join(vlib.LEAN, ".lake", "build", "bin", "concdriver")
 FAIL = 0xFFFFFFFF
@@ -163,6 +164,93 @@ def translator_max(repo, d):
     return res
 
 
+# ----------------------------------------------------------------------------- contents of grown memory (C05 + C18)
+
+def content_cases(rng, tier):
+    cases = [(1, 10, 0, [2, 0, 1, 20, 3]), (0, 4, 0, [1, 1, 2, 1]), (2, 2, 0, [1, 0]), (1, 6, 0, [5, 1]),
+             (1, 10, 1, [2, 1]), (3, 8, 0, [4294967295, 1, 4294967293, 4]), (0, 3, 0, [3]), (1, 3, 0, [1, 1, 1])]
+    for _ in range(12 if tier == "quick" else 300):
+        init = rng.choice([0, 1, 1, 2, 3])
+        maxp = init + rng.choice([0, 1, 3, 6])
+        ds = [rng.choice([0, 1, 1, 2, 3, 5, 4294967295]) for _ in range(rng.randrange(1, 5))]
+        cases.append((init, maxp, 1 if rng.random() < 0.1 else 0, ds))
+    return cases
+
+
+def run_grow_content(chk, repo, d, tier, broken, exe=None):
+    """`memory.grow` and the CONTENTS of a non-shared memory: the real wasmMemoryGrow (scratch copy `repo`, built in
+    `d`) with a realloc that returns a fresh block with a dirty 0xAA tail (tools/harness/grow_sched.c `content`)
+    vs Model.GrowContent on the regenerated step list (driver `gcontent`), and against the property itself: after
+    a successful grow every byte of the new pages is 0 and the old bytes are intact; a failed grow changes nothing.
+    Callable from c05.py (C05 must also build GROW_CONTENT_MODULES with GENS += [("MemFuncs", "gen_memfuncs")]).
+    Reports `grow-new-pages-not-zero` / `grow-old-contents-changed` on `chk`; appends tie failures to `broken`."""
+    if exe is None:
+        try:
+            exe = gs.build(os.path.join(repo, "w2c2"), d, "grow_content")
+        except Exception as e:
+            broken.append({"kind": "harness-build", "msg": str(e)[-1500:]})
+            return
+    ok, out = vlib.lake_build(["concdriver"])
+    have_driver = ok and os.path.exists(CONCDRIVER)
+    if not ok:
+        broken.append({"kind": "driver-build", "msg": out[-1500:]})
+    cases = content_cases(chk.rng, tier)
+    model = None
+    if have_driver:
+        try:
+            model = driver_lines([f"gcontent gen {i} {m} {f} " + " ".join(map(str, ds)) for i, m, f, ds in cases])
+        except Exception as e:
+            broken.append({"kind": "driver", "msg": str(e)[-500:]})
+    hist = {"cases": 0, "grows": 0, "successful_grows": 0, "new_bytes_checked": 0, "realloc_failures": 0}
+    worst = None
+    for idx, (init, maxp, fail, ds) in enumerate(cases):
+        rc, out, err = gs.run(exe, ["content", init, maxp, fail] + ds)
+        hist["cases"] += 1
+        chk.count_case(("content", init, maxp, fail, tuple(ds)), True,
+                       {"case": f"content {init} {maxp} {fail} {' '.join(map(str, ds))}", "real": out,
+                        "model": model[idx] if model else None} if idx < 3 else None)
+        if rc != 0:
+            broken.append({"kind": "harness", "msg": f"content {init} {maxp} {fail} {ds}: exit {rc} {err[-200:]}"})
+            continue
+        if model and model[idx] != out:
+            broken.append({"kind": "correspondence",
+                           "msg": f"grow-content {init} {maxp} {fail} {ds}: real `{out}` model `{model[idx]}`"})
+        pages = init
+        for dl, ent in zip(ds, out.split()):
+            f = dict(kv.split("=") for kv in ent.split(","))
+            hist["grows"] += 1
+            er, p2 = spec_grow(pages, dl, maxp)
+            if fail and er != FAIL and dl > 0:
+                er, p2 = FAIL, pages
+                hist["realloc_failures"] += 1
+            if int(f["r"]) != FAIL and dl > 0:
+                hist["successful_grows"] += 1
+                hist["new_bytes_checked"] += (int(f["p"]) - pages) * 65536
+            if int(f["z"]) != 0 and (worst is None or sum(ds) < sum(worst[3])):
+                worst = (init, maxp, fail, ds, out, pages, dl, f)
+            if f["o"] != "1":
+                chk.violation("grow-old-contents-changed",
+                              f"memory.grow({dl}) on a non-shared memory of {pages} pages changed bytes below the old size",
+                              {"harness": "tools/harness/grow_sched.c", "args": ["content", init, maxp, fail] + ds,
+                               "observed": out, "replay_cmd": "python3 tools/check.py C18 --replay <this file>"}, True)
+            if int(f["r"]) != er or int(f["p"]) != p2:
+                broken.append({"kind": "correspondence", "msg": f"grow-content {init} {maxp} {fail} {ds}: grow({dl}) at {pages} "
+                                                               f"pages gave {ent}, specification ret {er} pages {p2}"})
+            pages = int(f["p"])
+    if worst:
+        init, maxp, fail, ds, out, pages, dl, f = worst
+        chk.violation(
+            "grow-new-pages-not-zero",
+            f"memory.grow({dl}) on a non-shared memory of {pages} page(s) (max {maxp}): {f['z']} bytes of the new pages are not "
+            f"zero (first at byte {f['f']}) when realloc returns a block with a dirty tail — the specification requires grown "
+            "memory to read as zero; wasmMemoryGrow's memset after realloc does not cover [oldSize, newSize)",
+            {"harness": "tools/harness/grow_sched.c (realloc redirected to dirty_realloc: fresh block, tail 0xAA)",
+             "args": ["content", init, maxp, fail] + ds, "initial_pages": init, "failing_delta": dl, "observed": out,
+             "model": "Props/C05Grow.lean grow_zeroes_new_pages (Gen.growSteps: realloc size / memset offset+length)",
+             "replay_cmd": "python3 tools/check.py C18 --replay <this file>"}, True)
+    chk.coverage.update({"content_" + k: v for k, v in hist.items()})
+
+
 # ----------------------------------------------------------------------------- the check
 
 def driver_lines(lines):
@@ -174,6 +262,8 @@ def run(tier):
     chk.coverage["trusted_base"] = list(vlib.GLOBAL_TRUSTED) + [
         "pthread mutexes provide mutual exclusion and happens-before (POSIX); plain U32 reads/writes of descriptor "
         "fields are single indivisible steps of the model",
+        "realloc returns a block that keeps min(old, new) bytes and is arbitrary beyond (C standard); modelled with a "
+        "universally quantified tail, exercised with a 0xAA tail by tools/harness/grow_sched.c `content`",
         "tools/extract/gen_memfuncs.py flattens wasmMemoryGrow statement by statement (validated on every run: "
         "real function vs regenerated step list under identical schedules)",
         "tools/harness/grow_sched.c redirects pthread_mutex_lock/unlock by macro to a baton scheduler; the text of "
@@ -306,6 +396,10 @@ def run(tier):
                  "canonical": {"args": ["seq", 1, 10, 1, 4294967295], "observed": cout, "expected_ret": FAIL},
                  "model": "Props/C18.lean grow_wrap_zero_counterexample",
                  "replay_cmd": "python3 tools/check.py C18 --replay <this file>"}, True)
+
+        # ---- (b2) contents: grown pages read as zero, old bytes intact (realloc with a dirty tail)
+        if exe:
+            run_grow_content(chk, repo, d, tier, broken, exe=exe)
 
         # ---- (c) wasmMemoryAllocate: size of a shared memory with the legal maximum 65536.
         # The property quantifies over modules, so it is decided THROUGH the translator: translate
@@ -530,6 +624,15 @@ def replay(path):
                     return 1
                 p = p2
             return 0
+        if args[0] == "content":
+            bad = False
+            for ent in out.split():
+                f = dict(kv.split("=") for kv in ent.split(","))
+                if int(f["z"]) != 0 or f["o"] != "1":
+                    print(f"  {ent}: {f['z']} non-zero bytes in the new pages (first at {f['f']}), old bytes intact: {f['o']}")
+                    bad = True
+            print("grown memory reads as zero" if not bad else "grown memory does NOT read as zero")
+            return 1 if bad else 0
         if args[0] == "alloc":
             m = re.match(r"size (\d+)", out)
             return 1 if m and int(m.group(1)) != int(args[2]) * 65536 else 0
